@@ -66,6 +66,9 @@ def main():
         from replay.stubs import World, ReplayDiverged, ReplayDone
 
         ctx.world = World(ctx, c, wit)
+        from replay.stubs import arbitrary_source
+
+        S.ARBITRARY_SOURCE = arbitrary_source(ctx.world)
         for pname, pt in params.items():
             env[pname] = B.build(ctx, wit.get(pname), pt)
         if getattr(c, "ghost", None):
@@ -90,6 +93,20 @@ def main():
                 print("REPLAY-RESULT " + json.dumps(out, default=str))
                 return
         old = copy.deepcopy(s)
+        # functions that the symbolic side replaces by an assumed no-effect contract (file / console output)
+        # are replaced natively in the same way
+        for cc in list(S.CONTRACTS.values()):
+            if getattr(cc, "always_modular", False) and not cc.target.startswith("iface:"):
+                try:
+                    m2, par2, fn2 = resolve(cc.target)
+                    nm2 = cc.target.split(":")[1].split(".")[-1]
+                    noop = lambda *a, **k: None  # noqa: E731
+                    setattr(par2, nm2, noop)
+                    for mod3 in list(sys.modules.values()):
+                        if getattr(mod3, "__name__", "").startswith("syne_tune") and getattr(mod3, nm2, None) is fn2:
+                            setattr(mod3, nm2, noop)
+                except Exception:
+                    pass
         mod, parent, fn = resolve(c.target)
         caller = getattr(c, "native_call", None)
         exc = None
@@ -149,7 +166,10 @@ def main():
             elif spec is True:
                 out["reproduced"] = False
             else:
-                ok = clause_items(getattr(c, spec)(old))
+                import inspect as _insp
+
+                fn_spec = getattr(c, spec)
+                ok = clause_items(fn_spec(old, s) if len(_insp.signature(fn_spec).parameters) >= 2 else fn_spec(old))
                 bad = [k for k, v in ok if not v]
                 out["reproduced"] = bool(bad)
                 out["violated"] = ["raises[%s][%s]" % (cls, k) for k in bad]
